@@ -600,7 +600,7 @@ def gen_reconnect(rng, knobs=None):
     opts = {'mode': 'tcp', 'keepalive_ms': period, 'lifetime_ms': life, 'read_buffer': rng.choice([7, 1024]), 'frag': rng.choice([None, 64]),
             'provider_suspends': rng.choice([0, 0, 1, 3])}
     # who asks for the reconnect: the driver (application code), or the handler from inside on_close / on_keepalive_timeout
-    who = rng.choice(['app', 'app', 'on_close', 'on_close', 'on_timeout'])
+    who = k.get('who') or rng.choice(['app', 'app', 'on_close', 'on_close', 'on_timeout'])
     rounds = rng.randint(1, 3)
     if who == 'on_close':
         opts['reconnect_on_close'] = rounds
@@ -608,14 +608,45 @@ def gen_reconnect(rng, knobs=None):
         opts['reconnect_on_timeout'] = rounds
     prog = [['start'], ['pump']]
     nref = 0          # index the next request step will get
+    stale = who == 'app' and rng.random() < k.get('p_stale_fragments', 0.25)
+    if stale:
+        opts['frag'] = 64
     for rnd_i in range(rounds):
         chans = []    # channels of the client (with an application publisher) opened on the connection that is about to end
-        for _ in range(rng.randint(0, 3)):
-            kind = rng.choice(['rr', 'stream', 'channel', 'fnf'])
+        pend = []     # (ref, kind, initiator) of the interactions pending on it
+        who_done = False
+        if stale:
+            # the FIRST request of this connection (it has the first stream id) is given up while its fragmented response is arriving;
+            # the connection then ends in the middle of that response.  After the reconnect the first request gets the same id:
+            # nothing of the old response may leak into its response (the reassembly state belongs to the connection)
+            prog.append(['rr', 'c', spec(rng, big=False), {'mode': 'later'}])
+            ref0 = nref
+            nref += 1
+            prog.append(['pump'])
+            prog.append(['respond', ref0, [rng.choice([200, 333]), rng.choice([0, 10])]])
+            prog.append(['settle'])
+            prog.append(['deliver', 's', rng.choice([70, 140, 200])])
+            prog.append(['fut_cancel', ref0])
+            prog.append(['settle'])
+            prog.append(['deliver', 's', rng.choice([67, 134])])
+            prog.append(['cut', 's', 'eof'])
+            prog.append(['settle'])
+            prog.append(['reconnect'])
+            prog.append(['pump'])
+            prog.append(['rr', 'c', spec(rng, big=False), {'mode': 'immediate', 'resp': [rng.choice([5, 100, 333]), 0]}])
+            nref += 1
+            prog.append(['pump'])
+            prog.append(['advance', period + 10])
+            prog.append(['pump'])
+            continue
+        for _ in range(rng.randint(k.get('min_pending', 0), 3)):
+            kind = rng.choice(k.get('kinds') or ['rr', 'stream', 'channel', 'fnf'])
             ep = rng.choice(['c', 'c', 's'])
             sp = spec(rng, big=rng.random() < 0.3)
             if kind == 'channel' and ep == 'c':
                 chans.append(nref)
+            if kind in ('stream', 'rr', 'channel'):
+                pend.append((nref, kind, ep))
             nref += 1
             if kind == 'rr':
                 prog.append(['rr', ep, sp, {'mode': 'later'}])
@@ -650,7 +681,28 @@ def gen_reconnect(rng, knobs=None):
             prog.append(['silence'])
             prog.append(['advance', 2 * life + period + 5 if life < 5000 else 50])
             prog.append(['settle'])
-        if who == 'app':
+        if who == 'app' and cause == 'healthy' and pend and rng.random() < k.get('p_teardown_race', 0.5):
+            # the peer's terminal frame of a pending interaction is in the client's read buffer when the reconnect starts: it is
+            # handled while the old connection is being torn down (terminal signal, then nothing more - no connection error on top)
+            ref, kind, ep = rng.choice(pend)
+            prog.append(['pump'])
+            if kind == 'rr':
+                prog.append(['respond', ref, spec(rng, big=False)] if rng.random() < 0.8 else ['respond_error', ref])
+            else:
+                role = 'resp'
+                t = rng.random()
+                spx = spec(rng, big=False)
+                prog.append(['emit', ref, role, spx[0], spx[1], 1] if t < 0.4 else (['complete', ref, role] if t < 0.8 else ['error', ref, role]))
+            prog.append(['settle'])
+            if rng.random() < 0.5:
+                prog.append(['deliver_nosettle', 's' if ep == 'c' else 'c', None])
+            else:
+                # ... or it arrives a few loop callbacks into the tear-down
+                prog.append(['reconnect', rng.choice([1, 2, 3, 4, 5, 6, 8])])
+                prog.append(['deliver_nosettle', 's' if ep == 'c' else 'c', None])
+                prog.append(['settle'])
+                who_done = True
+        if who == 'app' and not who_done:
             if rng.random() < 0.45:
                 # the application keeps issuing requests while the reconnect is under way: after k loop callbacks of it
                 prog.append(['reconnect', rng.choice([0, 1, 2, 3, 5, 7, 8, 9, 10, 11, 12, 13, 14, 16, 20])])
